@@ -175,6 +175,8 @@ CONFIGS = {
                      'number_of_mpu_regions': 8, 'processor_id': 3, 'coproc_accepted_pl0_undefined': False},
     'v7-vfp': {'arch_version': 7, 'have_adv_simd_or_vfp': True},
     'v7-mp': {'arch_version': 7, 'have_mp_ext': True},
+    'v7-jz': {'arch_version': 7, 'have_jazelle': True, 'jazelle_accepts_execution': True},
+    'v6-jz': {'have_jazelle': True},
     # implementation-defined vectors at address 0 / an odd place (SCTLR.VE = 1 uses them for IRQ / FIQ; the reset vector when the configuration says so)
     # reset values given by the configuration file for registers the shipped file leaves at zero (the file format allows any register class): the CPSR
     # comes out of construction already naming a banked mode, SCR / TTBCR / DACR with bits set
@@ -326,6 +328,8 @@ def step_case(rng, cfgname, thumb, code, mode=None, it=None, e=None, code_base=N
             st['hvbar'] = 0x8000
             st['hcptr'] = rng.getrandbits(14) | (rng.getrandbits(1) << 20) | (rng.getrandbits(1) << 31)      # TCP0..13, TTA, TCPAC
             st['hstr'] = rng.getrandbits(18)                                                               # T0..T15, TTEE, TJDBX
+    if cfg.get('have_jazelle') and rng.random() < 0.6:
+        st['jmcr'] = 1                          # JMCR.JE: Jazelle enabled by software after reset (BXJ then leaves for Jazelle state instead of acting as BX)
     if rng.random() < 0.25:
         st['event_register'] = True             # an event sent by another observer before this step (SEV elsewhere / send_event_local)
     poke = [(pc, code)]
